@@ -1,7 +1,7 @@
 (* Property C05 — the NLP objective is the sum of the declared Mayer, sum and integral terms.
    Statements only; proofs in Proofs/ObjProofs.v. *)
 From Coq Require Import ZArith QArith Qcanon List Lia Bool.
-From RV Require Import Base.Num Base.PyList Base.Vec Expr Ocp Rows Mech.Grid Mech.Intg Mech.Sampling
+From RV Require Import Proofs.VacuityA Base.Num Base.PyList Base.Vec Expr Ocp Rows Mech.Grid Mech.Intg Mech.Sampling
      Mech.Shooting Mech.Colloc Base.Poly Spec.SpecDyn Spec.SpecPlace Inst Proofs.QcInst Proofs.ObjProofs Proofs.QuadProofs.
 Import ListNotations.
 Local Open Scope nat_scope.
@@ -133,3 +133,8 @@ Proof.
   - constructor; try reflexivity; vm_compute; lia.
   - vm_compute. reflexivity.
 Qed.
+
+(* further witnesses that the hypotheses of this file's theorems are met by realistic inputs (N = 1, M = 1, no controls,
+   t0 = 0, concrete grids / collocation points): proved in Proofs/VacuityA.v by the vacuity audit *)
+Example C05_more_witnesses : True.
+Proof. pose proof wf_lists_N1_M1_no_controls as _. pose proof distinct_radau2 as _. exact I. Qed.
